@@ -29,3 +29,11 @@ Proof.
   assert (H : all_ordered = true) by (vm_compute; reflexivity).
   unfold all_ordered in H. rewrite forallb_forall in H. exact H.
 Qed.
+
+Lemma sorted_after_forall : forall s how, In s map_sites -> class_of s = Some (SortedAfter how) ->
+  existsb (site_eqb s) sites_with_sort_after = true.
+Proof.
+  assert (H : sorted_after_checked = true) by (vm_compute; reflexivity).
+  unfold sorted_after_checked in H. rewrite forallb_forall in H.
+  intros s how Hs Hc. specialize (H s Hs). now rewrite Hc in H.
+Qed.
